@@ -106,8 +106,12 @@ class AnswerBench(Bench):
 
     def step(self, ev):
         self._cur = {'named': []}
+        if not hasattr(self, 'events_seen'):
+            self.events_seen = []
+        self.events_seen.append(ev)
         rec = super().step(ev)
-        self.answers.append({'out': rec.get('out'), 'status': rec.get('status'), 'named': self._cur['named']})
+        self.answers.append({'out': rec.get('out'), 'status': rec.get('status'), 'margin_rel': rec.get('margin_rel', 1.0),
+                             'named': self._cur['named']})
         return rec
 
     def after_result(self, ev, named, key, **info):
@@ -176,12 +180,46 @@ class Comparator:
             return f"{where}: capacity = {capa} vs {capb}"
         return None
 
+    def request_ok(self, ev):
+        """False if a quantity in the event is below 1e4 rounding steps of the coarsest replica in its own unit: such a
+        request is legitimately resolved differently by differently configured replicas."""
+        qs = []
+        for field in ('q',):
+            if isinstance(ev.get(field), str):
+                qs.append(ev[field])
+        for sname, q in ev.get('contents') or []:
+            qs.append(q)
+        kw = ev.get('kwargs') or {}
+        for f in ('quantity', 'total_quantity'):
+            v = kw.get(f)
+            qs += v if isinstance(v, list) else [v] if isinstance(v, str) else []
+        for q in qs:
+            try:
+                value, unit = M.parse_quantity(q)
+            except Exception:
+                continue
+            quantum = {'g': self.q_u, 'U': self.q_u, 'mol': self.q_mol, 'L': max(self.q_vol, F(0))}[unit]
+            if value != 0 and abs(value) < 10 ** 4 * quantum:
+                return False
+        return True
+
+    def state_floor_ok(self, W, st):
+        """False if some amount in the state sits within 1e4 rounding steps of zero."""
+        if st[0] == 'plate':
+            return all(self.state_floor_ok(W, w) for w in st[1])
+        for n, a in st[1].items():
+            ms = W.msubs[n]
+            q = (self.q_u if ms.is_enzyme else self.q_mol) + self.q_vol / ms.per_amount('L') + self.q_u / ms.per_amount('g')
+            if a != 0 and abs(a) < 10 ** 4 * q:
+                return False
+        return True
+
     def well_conditioned(self, W, st):
         """Observers that divide (concentrations) are compared only where the state is far above every quantum."""
         if st[0] != 'container':
             return False
         _, contents, vol, cap = st
-        if vol < 10 ** 6 * self.q_vol:
+        if vol < 10 ** 6 * self.q_vol or vol < 10 ** 4 * self.q_u:     # get_concentration divides by the volume rounded in litres
             return False
         for n, a in contents.items():
             ms = W.msubs[n]
@@ -254,10 +292,13 @@ def compare_bench(b0, others, cfgs, W):
             ox, oy = x['out'], y['out']
             if ox != oy:
                 sure = x.get('status') in ('must_accept', 'must_refuse', 'must_reject', None) and \
-                    y.get('status') in ('must_accept', 'must_refuse', 'must_reject', None)
+                    y.get('status') in ('must_accept', 'must_refuse', 'must_reject', None) and \
+                    x.get('margin_rel', 1.0) >= 5e-4 and y.get('margin_rel', 1.0) >= 5e-4
                 if sure:
                     out.append((k, 'decision', f"event {k}: shipped config -> {ox}, {tag} -> {oy}"))
                 break       # histories diverge from here on
+            if not cmpr.request_ok(b0.events_seen[k]) or not all(cmpr.state_floor_ok(W, sa) for (_, sa, _) in x['named']):
+                cmpr.drifted = True
             if cmpr.drifted:
                 b0_stats_drift(a0)
                 break
@@ -309,9 +350,9 @@ def profile_c(rng, tier, cfgs):
     p = {'op_w': dict(BASE_OPS, hold_slice=0, solution=0.6, solution_from=0.3), 'magnitude': mag, 'round_numbers': rng.random() < 0.6,
          'plate_size': 'small', 'cache_policy': 'never',
          # far from every feasibility boundary: far_in, far_out, negative, zero only
-         # plus requests a little (3e-4 relative) inside / outside the source boundary: far above every replica's rounding,
+         # plus requests a little (1e-3 relative) inside / outside the source boundary: far above every replica's rounding,
          # judged only where every replica's own model is sure of the decision
-         'q_w': [12, 1.0, 0, 1.0, 1.2, 0.3, 0.3, 0], 'near_rel': F(3, 10 ** 4), 'fill_w': [10, 1.2, 0, 0, 0, 0, 0, 1, 0.2, 0.2],
+         'q_w': [12, 1.0, 0, 1.0, 1.2, 0.3, 0.3, 0], 'near_rel': F(1, 10 ** 3), 'fill_w': [10, 1.2, 0, 0, 0, 0, 0, 1, 0.2, 0.2],
          'cap_w': [3, 6, 0, 0, 0.6, 0.2], 'dil_w': [8, 3, 1.5, 0, 0], 'stale_p': 0.1, 'min_conc_base': F(1, 10 ** 4),
          'n_events': rng.randint(8, 18 if tier == 'quick' else 28)}
     return p
@@ -476,6 +517,11 @@ def query_answers(run, calls):
 def finish_recipe(record, run0, known):
     cfgs = record['cfgs']
     calls = record['events']
+    pre = Comparator(cfgs, len(calls))
+    if not all(pre.request_ok(ev) for ev in list(record.get('prelude', [])) + list(calls)):
+        run0.stats['recipe_request_below_rounding_floor_unjudged'] += 1
+        run0.violations[:] = [v for v in run0.violations if v.prop == 'C18']
+        return run0
     a0 = query_answers(run0, calls)
     base_keys = set(v.fkey() for v in run0.violations)
     for c in cfgs[1:]:
